@@ -46,12 +46,13 @@ pub mod env {
     #[verifier::external_body] pub struct ManifestPreciseDecimal { x: u8 }
     #[verifier::external_body] pub struct ManifestNonFungibleLocalId { x: u8 }
     #[verifier::external_body] pub struct ContainerHeader { x: u8 }
+    #[verifier::external_body] #[derive(Clone, Copy)] pub struct SubintentHash { x: u8 }
+    pub struct Hash(pub [u8; 32]);
     #[verifier::external_body] pub struct TerminalValueBatchRef { x: u8 }
     #[verifier::external_body] pub struct Location { x: u8 }
     #[verifier::external_body] #[derive(Clone, Copy)] pub struct ModuleId { x: u8 }
     #[verifier::external_body] #[derive(Clone, Copy)] pub struct Decimal { x: u8 }
     #[verifier::external_body] pub struct NonFungibleLocalId { x: u8 }
-    #[verifier::external_body] #[derive(Clone, Copy)] pub struct IntentHash { x: u8 }
     #[verifier::external_body] pub struct EncodeError { x: u8 }
     #[verifier::external_body] pub struct ManifestValue { x: u8 }
     #[verifier::external_body] pub struct AccessRule { x: u8 }
@@ -163,6 +164,20 @@ pub mod env {
     @derive Clone, Copy
     @*/
 
+    /*@item radix-transactions/src/model/concepts.rs :: enum IntentHash
+    @derive Clone, Copy
+    @*/
+    #[verifier::external_body] #[derive(Clone, Copy)] pub struct TransactionIntentHash { x: u8 }
+    /*@item radix-common/src/types/blueprint_id.rs :: struct BlueprintId
+    @derive
+    @*/
+    /*@item radix-transactions/src/model/execution/executable_common.rs :: struct PreAllocatedAddress
+    @derive
+    @*/
+    /*@item radix-transactions/src/model/v2/child_subintent_hashes_v2.rs :: struct ChildSubintentSpecifier
+    @derive
+    @*/
+
     /*@item radix-transactions/src/manifest/static_manifest_interpreter.rs :: enum ManifestLocation
     @derive Clone, Copy
     @*/
@@ -206,6 +221,8 @@ pub mod env {
     /*@item radix-transactions/src/manifest/static_manifest_interpreter.rs :: struct OnNewIntent
     @*/
     /*@item radix-transactions/src/manifest/static_manifest_interpreter.rs :: struct OnFinish
+    @*/
+    /*@item radix-transactions/src/manifest/static_manifest_interpreter.rs :: struct OnRegisterBlob
     @*/
     /*@item radix-transactions/src/manifest/static_manifest_interpreter.rs :: struct OnStartInstruction
     @*/
@@ -258,15 +275,25 @@ pub mod env {
         spec fn subintent(&self) -> bool;
         fn is_subintent(&self) -> (r: bool)
             ensures r == self.subintent();
-        fn get_child_subintent_hashes(&self) -> ChildSubintentHashes<'_>;
-        fn instruction_count(&self) -> usize;
-        fn instruction_effect(&self, index: usize) -> ManifestInstructionEffect<'_>;
+        /// number of child subintents declared in the intent header
+        spec fn child_count(&self) -> nat;
+        fn get_child_subintent_hashes(&self) -> (r: ChildSubintentHashes<'_>)
+            ensures r.count() == self.child_count();
+        /// the instruction effects of the manifest, in order
+        spec fn effects(&self) -> Seq<ManifestInstructionEffect<'_>>;
+        fn instruction_count(&self) -> (r: usize)
+            ensures r == self.effects().len();
+        /// (manifest_traits.rs: "Panics if index is out of bounds")
+        fn instruction_effect(&self, index: usize) -> (r: ManifestInstructionEffect<'_>)
+            requires index < self.effects().len()
+            ensures r == self.effects()[index as int];
     }
     /// `impl ExactSizeIterator<Item = &ChildSubintentSpecifier>`: only its length is used here
     #[verifier::external_body]
     pub struct ChildSubintentHashes<'a> { x: &'a u8 }
     impl<'a> ChildSubintentHashes<'a> {
-        #[verifier::external_body] pub fn len(&self) -> usize { unimplemented!() }
+        pub uninterp spec fn count(&self) -> nat;
+        #[verifier::external_body] pub fn len(&self) -> (r: usize) ensures r == self.count() { unimplemented!() }
     }
 
     /// static_manifest_interpreter.rs :: trait ManifestInterpretationVisitor. The visitor is NOT under
@@ -343,6 +370,8 @@ pub mod env {
         fn on_resource_assertion(&mut self, details: OnResourceAssertion) -> (r: ControlFlow<Self::Output>)
             ensures old(self).quiet() ==> final(self).quiet() && r is Continue;
         fn on_verification(&mut self, details: OnVerification) -> (r: ControlFlow<Self::Output>)
+            ensures old(self).quiet() ==> final(self).quiet() && r is Continue;
+        fn on_register_blob(&mut self, details: OnRegisterBlob) -> (r: ControlFlow<Self::Output>)
             ensures old(self).quiet() ==> final(self).quiet() && r is Continue;
     }
 }
@@ -513,6 +542,7 @@ pub mod unit {
             &&& self.bucket_state@.len() == 0 && self.proof_state@.len() == 0 && self.address_reservation_state@.len() == 0
             &&& self.named_address_state@.len() == 0 && self.intent_state@.len() == 0
             &&& self.location == ManifestLocation::Preamble
+            &&& self.next_instruction_requirement is None
         }
         /// "nothing is consumed twice": between state `self` and a later state `f` the tables only grow
         /// and every id that was already created and is no longer live stays dead.
@@ -1072,7 +1102,7 @@ pub mod unit {
 
         // ---------------------------------------------------------------- instructions that USE ids
         /// a named address used as the callee must have been declared (when the ruleset checks it);
-        /// YIELD_TO_PARENT only in a subintent
+        /// YIELD_TO_PARENT only in a subintent; YIELD_TO_CHILD only to a declared child
         pub open spec fn invocation_target_ok(&self, kind: InvocationKind) -> bool {
             match kind {
                 InvocationKind::Method { address, .. } => self.validation_ruleset.validate_dynamic_address_in_command_part ==>
@@ -1081,7 +1111,7 @@ pub mod unit {
                     (*address matches ManifestPackageAddress::Named(a) ==> self.named_address_created(a)),
                 InvocationKind::DirectMethod { .. } => true,
                 InvocationKind::YieldToParent => self.manifest.subintent(),
-                InvocationKind::YieldToChild { .. } => true,
+                InvocationKind::YieldToChild { child_index } => (child_index.0 as nat) < self.manifest.child_count(),
             }
         }
 
@@ -1123,11 +1153,15 @@ pub mod unit {
                 old(visitor).quiet() ==> final(visitor).quiet(),
                 // the callee / kind of the invocation is acceptable
                 ret is Continue ==> old(self).invocation_target_ok(invocation_kind),
+                // a proof cannot be passed to another intent
+                ret is Continue && (invocation_kind is YieldToParent || invocation_kind is YieldToChild) ==> old(self).same_proofs(final(self)),
         @loop 1
             invariant
                 self.wf(),
                 old(visitor).quiet() ==> visitor.quiet(),
                 old(self).invocation_target_ok(invocation_kind),
+                yields_across_intent == (invocation_kind is YieldToParent || invocation_kind is YieldToChild),
+                yields_across_intent ==> old(self).same_proofs(self),
                 old(self).same_config(self), old(self).same_lengths(self),
                 old(self).same_named_addresses(self), old(self).same_intents(self),
                 old(self).no_resurrection(self),
@@ -1258,6 +1292,12 @@ pub mod unit {
                 old(visitor).quiet() ==> final(visitor).quiet(),
                 old(visitor).quiet() && !(effect is Invocation) && !(effect is ResourceAssertion) ==>
                     (ret is Continue <==> old(self).effect_guard(effect)),
+                // the "next instruction must be an invocation" requirement is armed by an accepted next-call assertion only
+                ret is Continue ==> final(self).next_instruction_requirement == (
+                    if old(self).validation_ruleset.validate_resource_assertions
+                        && (effect matches ManifestInstructionEffect::ResourceAssertion { assertion } && assertion is NextCall) {
+                        NextInstructionRequirement::RequiredInvocationDueToNextCallAssertion
+                    } else { NextInstructionRequirement::None }),
                 // an instruction after a next-call assertion must be an invocation
                 ret is Continue && old(self).next_instruction_requirement is RequiredInvocationDueToNextCallAssertion ==> effect is Invocation,
         @closure 1 := |ip: (usize, &ProofState<'a>)| -> (r: Option<ManifestProof>) ensures r == (if ip.1.consumed_at is None { Some(ManifestProof(ip.0 as u32)) } else { None::<ManifestProof> })
@@ -1331,7 +1371,52 @@ pub mod unit {
             proof { lemma_no_resurrection_trans(old(self), &s0, self); }
         @*/
 
+        // ---------------------------------------------------------------- preamble
+        /*@fn radix-transactions/src/manifest/static_manifest_interpreter.rs :: impl<'a, M: ReadableManifest + ?Sized> StaticManifestInterpreter<'a, M> :: fn handle_preallocated_addresses
+        @sig
+            requires old(self).wf(), old(self).address_reservation_state@.len() + preallocated_addresses@.len() < u32::MAX,
+            ensures
+                old(self).same_config(final(self)), old(self).same_buckets(final(self)), old(self).same_proofs(final(self)),
+                old(self).same_named_addresses(final(self)), old(self).same_intents(final(self)),
+                final(self).wf(),
+                old(self).no_resurrection(final(self)),
+                old(visitor).quiet() ==> final(visitor).quiet() && ret is Continue,
+                // one live reservation per pre-allocated address, in order
+                ret is Continue ==> final(self).address_reservation_state@.len() == old(self).address_reservation_state@.len() + preallocated_addresses@.len()
+                    && final(self).address_reservation_state@.take(old(self).address_reservation_state@.len() as int) =~= old(self).address_reservation_state@
+                    && forall|i: int| 0 <= i < preallocated_addresses@.len() ==>
+                        (#[trigger] final(self).address_reservation_state@[old(self).address_reservation_state@.len() + i]).consumed_at is None
+                        && final(self).address_reservation_state@[old(self).address_reservation_state@.len() + i].preallocated_address == Some(&preallocated_addresses@[i].address),
+        @loop 1 iter it
+            invariant
+                self.wf(),
+                old(self).same_config(self), old(self).same_buckets(self), old(self).same_proofs(self),
+                old(self).same_named_addresses(self), old(self).same_intents(self),
+                old(self).no_resurrection(self),
+                old(visitor).quiet() ==> visitor.quiet(),
+                old(self).address_reservation_state@.len() + preallocated_addresses@.len() < u32::MAX,
+                self.address_reservation_state@.len() == old(self).address_reservation_state@.len() + it.index@,
+                self.address_reservation_state@.take(old(self).address_reservation_state@.len() as int) =~= old(self).address_reservation_state@,
+                forall|i: int| 0 <= i < it.index@ ==>
+                    (#[trigger] self.address_reservation_state@[old(self).address_reservation_state@.len() + i]).consumed_at is None
+                    && self.address_reservation_state@[old(self).address_reservation_state@.len() + i].preallocated_address == Some(&preallocated_addresses@[i].address),
+        @before <<let _ = self.handle_new_address_reservation(>> #1
+            let ghost pre = *self;
+        @after <<let _ = self.handle_new_address_reservation(>> #1
+            proof { lemma_no_resurrection_trans(old(self), &pre, self); }
+        @*/
+
         // ---------------------------------------------------------------- end of the manifest
+        /*@fn radix-transactions/src/manifest/static_manifest_interpreter.rs :: impl<'a, M: ReadableManifest + ?Sized> StaticManifestInterpreter<'a, M> :: fn verify_final_instruction
+        @sig
+            ensures
+                *final(self) == *old(self),
+                // a subintent must end with YIELD_TO_PARENT
+                ret is Continue <==> (old(self).manifest.subintent() ==> old(self).manifest.effects().len() > 0 &&
+                    (old(self).manifest.effects().last() matches ManifestInstructionEffect::Invocation { kind, .. } && kind is YieldToParent)),
+                ret matches ControlFlow::Break(o) ==> is_err::<V>(o, ManifestValidationError::SubintentDoesNotEndWithYieldToParent),
+        @*/
+
         /// bucket `i` is the first one (in creation order) that is still live
         pub open spec fn first_live_bucket(&self, i: int) -> bool {
             &&& 0 <= i < self.bucket_state@.len() && self.bucket_state@[i].consumed_at is None
@@ -1424,6 +1509,7 @@ pub mod unit {
         fn on_pass_blob(&mut self, details: OnPassBlob) -> ControlFlow<ManifestValidationError> { ControlFlow::Continue(()) }
         fn on_resource_assertion(&mut self, details: OnResourceAssertion) -> ControlFlow<ManifestValidationError> { ControlFlow::Continue(()) }
         fn on_verification(&mut self, details: OnVerification) -> ControlFlow<ManifestValidationError> { ControlFlow::Continue(()) }
+        fn on_register_blob(&mut self, details: OnRegisterBlob) -> ControlFlow<ManifestValidationError> { ControlFlow::Continue(()) }
     }
 
     /// "nothing is consumed twice", "a bucket with a live proof cannot be consumed" and the reviewer's case
@@ -1474,6 +1560,36 @@ pub mod unit {
         // a fresh bucket never reuses the consumed id
         let r = s.handle_new_bucket(&mut v, src);
         assert(r is Continue && s.bucket_live(ManifestBucket(1)) && !s.bucket_live(b));
+    }
+
+    /// DROP_ALL_PROOFS unlocks every bucket, a dangling bucket is rejected at the end, and after consuming it
+    /// the manifest is accepted -- with the no-op visitor, decided from the contracts only.
+    pub fn scenario_drop_all_and_wrap_up<'a, M: ReadableManifest + ?Sized>(manifest: &'a M, src: BucketSourceAmount<'a>) {
+        let mut v = ();
+        let mut s = StaticManifestInterpreter::new(ValidationRuleset::all(), manifest);
+        let b = ManifestBucket(0);
+        let r = s.handle_instruction(&mut v, 0, ManifestInstructionEffect::CreateBucket { source_amount: src });
+        assert(r is Continue && s.bucket_live(b));
+        let r = s.handle_instruction(&mut v, 1, ManifestInstructionEffect::CreateProof { source_amount: ProofSourceAmount::BucketAllOf { bucket: b } });
+        assert(r is Continue);
+        let r = s.handle_instruction(&mut v, 2, ManifestInstructionEffect::CloneProof { cloned_proof: ManifestProof(0) });
+        assert(r is Continue);
+        let r = s.handle_instruction(&mut v, 3, ManifestInstructionEffect::DropManyProofs {
+            drop_all_named_proofs: true, drop_all_authzone_signature_proofs: false, drop_all_authzone_non_signature_proofs: false });
+        assert(r is Continue && s.bucket_live(b) && !locked(s.proof_state@, b) && !s.proof_live(ManifestProof(0)) && !s.proof_live(ManifestProof(1)));
+        // the bucket is still dangling: the manifest cannot end here
+        let r = s.handle_wrap_up(&mut v);
+        assert(r is Break);
+        let r = s.handle_instruction(&mut v, 4, ManifestInstructionEffect::ConsumeBucket { consumed_bucket: b, destination: BucketDestination::Worktop });
+        assert(r is Continue && !s.bucket_live(b));
+        proof {
+            assert forall|x: ManifestBucket| !s.bucket_live(x) by { if x.0 != 0 { assert(!s.bucket_created(x)); } }
+        }
+        let r = s.handle_wrap_up(&mut v);
+        assert(r is Continue);
+        // a consumed bucket cannot be the source of a proof (the reviewer's case, through the instruction layer)
+        let r = s.handle_instruction(&mut v, 5, ManifestInstructionEffect::CreateProof { source_amount: ProofSourceAmount::BucketAllOf { bucket: b } });
+        assert(r is Break);
     }
 }
 } // verus!
